@@ -44,11 +44,20 @@ impl<'a> Enc<'a> {
         let mut force_long = false;
         if self.policy == LenPolicy::Random {
             if let Some(r) = self.rng.as_mut() {
-                match r.below(4) {
-                    0 => force_long = true,
-                    1 => {
+                match r.below(8) {
+                    0 | 1 => force_long = true,
+                    2 => {
                         force_long = true;
                         extra = 1 + r.usize(4);
+                    }
+                    3 => {
+                        // X.690 allows up to 126 length octets: well beyond the size of a machine word
+                        force_long = true;
+                        extra = 5 + r.usize(12);
+                    }
+                    4 if r.chance(1, 8) => {
+                        force_long = true;
+                        extra = 100 + r.usize(20);
                     }
                     _ => {}
                 }
@@ -67,6 +76,7 @@ impl<'a> Enc<'a> {
         if octs.is_empty() {
             octs.push(0);
         }
+        let extra = extra.min(126 - octs.len());
         for _ in 0..extra {
             octs.push(0);
         }
